@@ -203,6 +203,17 @@ func init() {
 		// every writer reads its own key back: an update that lands in the abandoned table is then visible as a lost write
 		jobs = append(jobs, concJob("L2:grow-readback", l2, fill8, [][]string{{"set 5", "get 5"}, {"set 0", "get 0"}, {"inv 1", "get 1"}}, or, "small", pb, false, 16, budget, "histories-checked", "table-grew"))
 		jobs = append(jobs, concJob("L2:grow-compute-readback", l2, fill8, [][]string{{"cia 5", "get 5"}, {"cw 2", "get 2"}, {"sia 9", "get 9"}}, or, "small", pb, false, 16, budget, "histories-checked", "table-grew"))
+		// InvalidateAll while the table grows (with and without deletion handlers: a cache without listeners and without
+		// maintenance may take a different path): everything stored before it and not written again is gone afterwards
+		for _, nh := range []bool{false, true} {
+			cfg := l2
+			cfg.NoHandlers = nh
+			lbl := "L2:grow‖InvalidateAll"
+			if nh {
+				lbl += "(no handlers)"
+			}
+			jobs = append(jobs, concJob(lbl, cfg, fill8, [][]string{{"set 5", "get 5"}, {"invall", "get 0", "get 8"}}, or, "small", pb, false, 16, budget, "histories-checked", "table-grew"))
+		}
 		shrinkSetup := append(append([]string{}, fill8...), "set 5", "inv 0", "inv 1", "inv 2", "inv 3", "inv 4", "inv 6", "inv 7", "inv 8")
 		jobs = append(jobs, concJob("L2:shrink", l2, shrinkSetup, [][]string{{"inv 5", "get 1"}, {"set 1", "get 5"}, {"cia 5", "get 1"}}, or, "small", pb, false, 16, budget, "histories-checked", "table-shrank"))
 		jobs = append(jobs, concJob("L2:shrink-readback", l2, shrinkSetup, [][]string{{"inv 5", "get 5"}, {"set 1", "get 1"}, {"set 6", "get 6"}}, or, "small", pb, false, 16, budget, "histories-checked", "table-shrank"))
